@@ -150,6 +150,10 @@ func propC04(c *ctx) error {
 		{`<p :range="i, s : sts" :title="${s.B}"><i :text="${s.A + i}">o</i><b :range="_, l : s.L" :text="${l}${i}">o</b></p>`, `<p title="one"><i>2</i><b>11</b><b>21</b></p><p title="two"><i>4</i><b>12</b><b>22</b></p>`},
 		{`<div :range="i, x : ints"><span :range="i, y : ints" :text="${i}${x}${y}">o</span>|<em :text="${i}">o</em></div>`, `<div><span>144</span><span>245</span>|<em>1</em></div><div><span>154</span><span>255</span>|<em>2</em></div>`},
 		{`<a :range="k, v : m1" :href="${k}" :text="${v}">o</a><b :text="${a}">after</b>`, `<a href="only">7</a><b>1</b>`},
+		// the following blank text separates CONSECUTIVE ITEMS, whether or not an item produced any output
+		{"<t:block :range=\"_, x : ints\"><b :if=\"${x > 4}\" :text=\"${x}\">o</b></t:block>\n<i>after</i>", "\n<b>5</b>\n<i>after</i>"},
+		{"<u :range=\"_, x : ints\" :remove=\"all\">o</u>\n <i>after</i>", "\n \n <i>after</i>"},
+		{"<t:block :range=\"_, x : ints\"><b :if=\"${x < 5}\" :text=\"${x}\">o</b></t:block> <i>after</i>", "<b>4</b>  <i>after</i>"},
 		// the same ranged node re-entered through a data-bounded recursive fragment
 		{`<ul><li :range="i, n : tree" :insert="node">x</li></ul><template :define="node"><b :text="${i}${n.name}">b</b><ul :if="${len(n.kids) > 0}"><li :range="i, n : n.kids" :insert="node">x</li></ul></template>`,
 			`<ul><li><b>1a</b><ul><li><b>1a1</b></li><li><b>2a2</b><ul><li><b>1a2x</b></li></ul></li></ul></li><li><b>2b</b></li></ul>`},
